@@ -16,6 +16,7 @@ class Stream:
     def __init__(self, ctx):
         self.ctx = ctx
         self.header = None
+        self.raw_verdicts = {}
 
     def load_header(self):
         r = self.ctx.run_harness(["compile"], "")
@@ -65,6 +66,12 @@ class Stream:
                     mm = re.match(r"want=(\S+) got=(\S+)", f[4])
                     want, got = mm.group(1), mm.group(2)
                 cases[cid]["events"].append((idx, ok, want, got, vlines[cid][idx]))
+            elif ln.startswith("K "):
+                f = ln.split(" ", 4)
+                cases[f[1]]["kcheck"] = (f[2] == "valid", f[3], f[4] if len(f) > 4 else "")
+            elif ln.startswith("R "):
+                f = ln.split()
+                self.raw_verdicts[f[1]] = (f[2] == "valid")
             elif ln.startswith("S "):
                 summary = dict(kv.split("=") for kv in ln.split()[1:])
             elif ln.startswith("X "):
@@ -227,7 +234,7 @@ CHECKS = {"C06": check_C06}
 
 # ------------------------------------------------------------------------------------------------ policy streams
 def policy_stream(ctx, prop, kinds, npol, nev, arches=None, defects=None, le_choices=(0, 1), replay=None,
-                  defect_share=0.0, foreign_share=0.15, extra_cases=None):
+                  defect_share=0.0, foreign_share=0.15, extra_cases=None, x32_share=0.0):
     """Generate policies of the given kinds, compile them with the implementation and the model, and run the
     implementation's programs on partition events against the specification. Returns dict with results."""
     rng = random.Random(ctx.seed * 1000003 + int(prop[1:]))
@@ -259,14 +266,14 @@ def policy_stream(ctx, prop, kinds, npol, nev, arches=None, defects=None, le_cho
             dist[key] = dist.get(key, 0) + 1
             lines.append("P %s %d %s %s" % (cid, le, an, PolicyGen.tokens(pol)))
             if nev:
-                lines += pg.events(pol, nev, foreign_share=foreign_share)
+                lines += pg.events(pol, nev, foreign_share=foreign_share, x32_share=x32_share)
         for (cid, line, evs, m) in (extra_cases(pg, rng) if extra_cases else []):
             meta[cid] = m
             dist[m.get("kind", "extra")] = dist.get(m.get("kind", "extra"), 0) + 1
             lines.append(line)
             lines += evs
     cases, summary = st.run(lines)
-    return dict(cases=cases, summary=summary, meta=meta, dist=dist, consts=consts, arches=arches_tbl)
+    return dict(cases=cases, summary=summary, meta=meta, dist=dist, consts=consts, arches=arches_tbl, stream=st)
 
 
 def policy_coverage(ctx, res, rule, nontrivial):
@@ -293,13 +300,18 @@ def policy_coverage(ctx, res, rule, nontrivial):
 
 
 def check_core_policy(ctx, prop, prop_file, theorems, kinds, rule, replay=None, npol=(250, 4000), nev=(40, 80),
-                      gen=None, **kw):
+                      gen=None, diff_filter=None, **kw):
     proof_step(ctx, prop_file, theorems, gen=gen)
     q = ctx.tier == "quick"
     res = policy_stream(ctx, prop, kinds, npol[0] if q else npol[1], nev[0] if q else nev[1], replay=replay, **kw)
     if res is None:
         return None
     meta = res["meta"]
+    if diff_filter:
+        # scope the correspondence to the observables this property speaks about (DESIGN 5.4)
+        for c in res["cases"].values():
+            if c["corr"] == "DIFF" and not diff_filter(c):
+                c["corr"] = "same-projection"
     ndiff, nbad = report_case_failures(ctx, res["cases"], "policies (%s)" % prop, describe=lambda cid: meta.get(cid))
     policy_coverage(ctx, res, rule, lambda cid, c: c["go"].startswith("OK") and len(c["events"]) > 0)
     ctx.coverage["correspondence_differences"] = ndiff
@@ -316,3 +328,280 @@ def check_C01(ctx, replay=None):
 
 
 CHECKS.update({"C01": check_C01})
+
+
+# ------------------------------------------------------------------------------------------------ C02
+def check_C02(ctx, replay=None):
+    check_core_policy(ctx, "C02", "C02.v",
+                      ["C02_eq_by_halves", "C02_lt_by_halves", "C02_le_by_halves", "C02_bits_by_halves",
+                       "C02_ldhi_reads_high_half", "C02_ldlo_reads_low_half", "C02_condition_lowering",
+                       "C02_single_condition_exact", "C02_relations", "C02_nonvacuous"],
+                      ["single_cond"],
+                      "one group / one conditional entry / one condition: 8 operations x 6 argument indices x boundary and random 64-bit operands x both byte orders x four tables, compiled by the implementation and the extracted model (instruction-exact comparison); every program run on events whose argument is the operand, operand +-1, +-2^32, with high/low halves swapped or equal, all-ones, 0 and random, against the extracted decide (i.e. rel); non-trivial = accepted policy with events evaluated",
+                      replay=replay, npol=(500, 8000), nev=(40, 80), foreign_share=0.03)
+
+
+# ------------------------------------------------------------------------------------------------ C03
+def check_C03(ctx, replay=None):
+    check_core_policy(ctx, "C03", "C03.v",
+                      ["C03_compiled_program_is_decide", "C03_match_is_for_own_syscall", "C03_any_satisfied_list_matches",
+                       "C03_unmatched_entry_as_absent", "C03_programs_agree_without_unmatched_entry", "C03_nonvacuous"],
+                      ["cond", "cond", "mixed", "mixed", "mixed_long", "condlong"],
+                      "policies mixing unconditional and conditional entries (1..4 groups, repeated names merged into OR lists, 1..85 conditions per list, repeated arguments, the same syscall in several groups), compiled by the implementation and the extracted model (instruction-exact comparison); every accepted program run on events aimed at each list (satisfying / nearly satisfying every condition) and on events whose argument words equal other entries' syscall numbers and operands, against the extracted decide; non-trivial = accepted policy with conditional entries and events evaluated",
+                      replay=replay, npol=(220, 4000), nev=(50, 100))
+
+
+# ------------------------------------------------------------------------------------------------ C04
+def _prologue_projection(text):
+    """The observables C04 speaks about: the architecture test (either encoding), the instruction its jump lands on,
+    the syscall-number load and the x32 guard."""
+    f = text.split()
+    if len(f) < 2 or f[0] != "OK":
+        return text[:60]
+    ins = f[2:]
+    out = []
+    if len(ins) < 3:
+        return " ".join(ins)
+    out.append(ins[0])
+    out.append(ins[1])
+    j = ins[1].split(":")
+    pos = 2
+    land = None
+    if j[0] == "jif" and j[1] == "ne":
+        land = 2 + int(j[3])
+    elif j[0] == "jif" and j[1] == "eq" and ins[2].startswith("ja:"):
+        out.append(ins[2])
+        land = 3 + int(ins[2].split(":")[1])
+        pos = 3
+    out += ins[pos:pos + 3]      # ld nr, and the x32 guard when present
+    out.append("land=" + (ins[land] if land is not None and land < len(ins) else "OUT"))
+    return " ".join(out)
+
+
+def check_C04(ctx, replay=None):
+    def differs(c):
+        return _prologue_projection(c.get("model", "")) != _prologue_projection(c["go"])
+    check_core_policy(ctx, "C04", "C04.v",
+                      ["C04_foreign_arch_default", "C04_x32_enosys", "C04_independent_of_rules", "C04_prologue_both_encodings", "C04_nonvacuous"],
+                      ["names", "names_long", "names_long", "names_long", "cond", "mixed", "mixed_long", "condlong", "degenerate", "whole_table"],
+                      "policies of every kind sized so that the architecture jump distance straddles 255/256 (name lists of 245..260 and longer, conditional entries), all four tables; compared with the extracted model on the prologue, the instruction the architecture jump lands on and the x32 guard; every accepted program run ONLY on events of a foreign architecture (all audit ids of the package, bit flips of the native id, random words) and, natively, numbers with the x32 bit (0x40000000, |n, 0xFFFFFFFF, ...) or just below it, against the extracted decide; non-trivial = accepted policy with events evaluated",
+                      replay=replay, npol=(250, 4000), nev=(40, 80), foreign_share=0.6, x32_share=0.4, diff_filter=differs)
+
+
+# ------------------------------------------------------------------------------------------------ C05
+def _damage(rng, raw):
+    """Systematically damaged variants of a raw program with the verdict left to the model."""
+    prog = [list(map(int, t.split(":"))) for t in raw]
+    n = len(prog)
+    kind = rng.choice(["jt_out", "jf_out", "ja_out", "ld_unaligned", "ld_64", "ld_big", "opcode", "last_not_ret", "empty", "over_4096",
+                       "none", "div0", "mem", "jt_edge", "len_short"])
+    i = rng.randrange(n)
+    if kind in ("jt_out", "jf_out", "jt_edge"):
+        js = [x for x in range(n) if prog[x][0] in (21, 37, 53, 69)]
+        if not js:
+            return None
+        i = rng.choice(js)
+        rest = n - i - 1
+        v = rest if kind != "jt_edge" else max(0, rest - 1)
+        if v > 255:
+            return None
+        prog[i][1 if kind != "jf_out" else 2] = v
+    elif kind == "ja_out":
+        prog.insert(i, [5, 0, 0, rng.choice([n - i, n - i + 1, 0xffffffff, n - i - 1 if n - i - 1 >= 0 else 0])])
+    elif kind in ("ld_unaligned", "ld_64", "ld_big"):
+        prog.insert(i, [32, 0, 0, {"ld_unaligned": rng.choice([1, 2, 3, 5, 18, 61]), "ld_64": rng.choice([64, 68, 100]),
+                                   "ld_big": rng.choice([0xfffff000, 0xffffffff, 0xfffff004, 1 << 31])}[kind]])
+    elif kind == "opcode":
+        prog.insert(i, [rng.choice([0x28, 0x30, 0x40, 0x48, 0x50, 0xb1, 0x94, 0x9c, 0x80, 0x81, 0x87, 0x07, 0x04, 0x1c, 0xffff, 0x16, 0x18, 0x61, 0x02]), 0, 0, rng.choice([0, 1, 15, 16])])
+    elif kind == "last_not_ret":
+        prog.append([32, 0, 0, 0])
+    elif kind == "empty":
+        prog = []
+    elif kind == "over_4096":
+        prog = [[32, 0, 0, 0]] * (4097 - n if n < 4097 else 1) + prog
+    elif kind == "div0":
+        prog.insert(i, [rng.choice([0x34, 0x94, 0x64, 0x74]), 0, 0, rng.choice([0, 1, 31, 32])])
+    elif kind == "mem":
+        prog.insert(i, [rng.choice([0x60, 0x61, 0x02, 0x03]), 0, 0, rng.choice([0, 15, 16])])
+    elif kind == "len_short":
+        if n < 2:
+            return None
+        prog = prog[:rng.randrange(1, n)]
+    return kind, ["%d:%d:%d:%d" % tuple(x) for x in prog]
+
+
+def check_C05(ctx, replay=None):
+    rng = random.Random(ctx.seed * 1000003 + 5005)
+    theorems = C05_THEOREMS
+    res = check_core_policy(ctx, "C05", "C05.v", theorems,
+                            ["names", "names_long", "cond", "mixed", "mixed_long", "condlong", "degenerate", "degenerate", "whole_table"],
+                            "policies of every kind including degenerate ones (groups without names, one name, the whole table, 85-condition lists, programs over 4096 instructions), all four tables, both byte orders: the implementation's program, raw-encoded by the extracted encoder, is judged by the extracted kernel_check (a port of bpf_check_classic + seccomp_check_filter, proved sound in Coq) and its returns are compared with the closed set; the kernel_check model itself is validated against the RUNNING kernel on the implementation's programs and on systematically damaged variants (out-of-range jt/jf/k, unaligned / >=64 / negative load offsets, foreign opcodes, no final return, length 0 and 4097, truncations) offered to seccomp(2) in throw-away child processes; non-trivial = distinct accepted programs judged + distinct damaged variants on which kernel and model were compared",
+                            replay=replay, npol=(220, 4000), nev=(10, 30))
+    if res is None:
+        return
+    cases = res["cases"]
+    nbad = ctx.coverage.get("counterexamples", 0)
+    judged = 0
+    raws = {}
+    for cid, c in cases.items():
+        if not c["go"].startswith("OK"):
+            continue
+        kc = c.get("kcheck")
+        if kc is None:
+            continue
+        judged += 1
+        n = int(c["go"].split()[1])
+        valid, closed, raw = kc
+        raws[cid] = raw.split()
+        if (not valid and n <= 4096) or closed != "closed":
+            nbad += 1
+            p = ctx.violation("counterexample", dict(case=c["line"].split(" | ")[0], go_result=summarize_go(c["go"]),
+                                                     what=("the emitted program (<= 4096 instructions) is rejected by the kernel's filter verifier (model kernel_check)" if not valid and n <= 4096 else
+                                                           "the emitted program can return a value outside {default, group actions, ERRNO|ENOSYS}: " + closed),
+                                                     description=res["meta"].get(cid)), True)
+            rewrite_with_replay_cmd(ctx, p)
+    # validate kernel_check against the running kernel
+    st = res["stream"]
+    probes = []
+    kinds = {}
+    ids = sorted(raws)
+    budget = 150 if ctx.tier == "quick" else 1500
+    for cid in ids[:budget // 3]:
+        if len(raws[cid]) <= 4200:
+            probes.append(("g" + cid, "asis", raws[cid]))
+    tries = 0
+    while len(probes) < budget and ids and tries < budget * 5:
+        tries += 1
+        cid = rng.choice(ids)
+        if len(raws[cid]) > 600:
+            continue
+        d = _damage(rng, raws[cid])
+        if d is None:
+            continue
+        probes.append(("d%d" % len(probes), d[0], d[1]))
+    lines = ["R %s %d %s" % (pid, len(raw), " ".join(raw)) for (pid, kind, raw) in probes]
+    if replay and replay.get("raw"):
+        lines = [replay["raw"]]
+        probes = [(replay["raw"].split()[1], "replay", replay["raw"].split()[3:])]
+    kernel = {}
+    if lines:
+        r = ctx.run_harness(["kprobe"], "\n".join(lines) + "\n", timeout=900)
+        for ln in r.stdout.splitlines():
+            f = ln.split()
+            if f and f[0] == "R":
+                kernel[f[1]] = " ".join(f[2:])
+        d = ctx.run_driver("\n".join(lines) + "\n")
+        model = {}
+        for ln in d.stdout.splitlines():
+            f = ln.split()
+            if f and f[0] == "R":
+                model[f[1]] = f[2] == "valid"
+        kdiff = 0
+        for (pid, kind, raw) in probes:
+            kinds[kind] = kinds.get(kind, 0) + 1
+            kv = kernel.get(pid, "UNKNOWN missing")
+            mv = model.get(pid)
+            if kv.startswith("UNKNOWN") or mv is None:
+                continue
+            accepted = kv == "ACCEPT"
+            if accepted != mv:
+                kdiff += 1
+                if kdiff <= 3:
+                    found = pid.startswith("g") and not accepted     # an emitted program the real kernel refuses
+                    if found:
+                        nbad += 1
+                    p = ctx.violation("counterexample" if found else "correspondence",
+                                      dict(stream="kernel_check model vs seccomp(2) of the running kernel", variant=kind,
+                                           raw="R %s %d %s" % (pid, len(raw), " ".join(raw[:5000])), kernel=kv, model="valid" if mv else "INVALID",
+                                           what=("the running kernel refuses a program the compiler emitted" if found else
+                                                 "the kernel verifier model disagrees with the running kernel on this program")), found)
+                    rewrite_with_replay_cmd(ctx, p)
+        ctx.coverage["kernel_probes"] = len(probes)
+        ctx.coverage["kernel_model_disagreements"] = kdiff
+        ctx.coverage["traces_validated_against_impl"] = len([1 for (pid, k, r) in probes if not kernel.get(pid, "UNKNOWN").startswith("UNKNOWN")])
+        ctx.coverage["input_distribution"]["kernel_probe_kinds"] = kinds
+        ctx.coverage["input_distribution"]["kernel_verdicts"] = {v: sum(1 for x in kernel.values() if x == v) for v in set(kernel.values())}
+    ctx.coverage["programs_judged_by_kernel_check"] = judged
+    ctx.coverage["counterexamples"] = nbad
+    ctx.coverage["distinct_nontrivial"] = len(set(" ".join(r) for r in raws.values())) + len(set(" ".join(r) for (_, k, r) in probes if k != "asis"))
+
+
+C05_THEOREMS = ["C05_compiled_kernel_valid", "C05_jumps_fit_byte", "C05_raw_encoding_preserves_meaning", "C05_return_set_closed",
+                "C05_compiled_no_fault", "C05_kernel_check_sound", "C05_loads_total", "C05_nonvacuous"]
+
+
+# ------------------------------------------------------------------------------------------------ C07
+def check_C07(ctx, replay=None):
+    from gencases import PolicyGen as PG
+    theorems = C07_THEOREMS
+    ctx.ensure_theories()
+    gen, log = ctx.regenerate()
+    if gen is None:
+        ctx.broken = "regeneration failed: " + log[-2000:]
+        ctx.obligations += [t for t in theorems if t not in ctx.obligations]
+    else:
+        proof_step(ctx, "C07.v", theorems, gen=gen)
+    q = ctx.tier == "quick"
+    res = policy_stream(ctx, "C07", ["names", "cond", "mixed", "mixed", "degenerate", "condlong", "names_long"],
+                        400 if q else 6000, 0, defects=PG.DEFECTS, defect_share=0.6, replay=replay,
+                        arches=PG.TABLE_ARCHES + ["X32"])
+    if res is None:
+        return
+    cases, meta = res["cases"], res["meta"]
+    nbad = ndiff = 0
+    rep = 0
+    classes = {}
+    for cid, c in cases.items():
+        m = meta.get(cid) or {}
+        go = c["go"]
+        gclass = "OK" if go.startswith("OK") else go.split(" | ")[0]
+        mclass = "OK" if c["corr"] == "same" and go.startswith("OK") else None
+        model = c.get("model", go if c["corr"] == "same" else "")
+        mclass = "OK" if model.startswith("OK") else model
+        key = "%s->%s" % (m.get("defect") or ("notable" if m.get("arch") not in PG.TABLE_ARCHES else "valid"), gclass.split()[0] + (" " + gclass.split()[1] if len(gclass.split()) > 1 else ""))
+        classes[key] = classes.get(key, 0) + 1
+        # direct search against the property text (independent of the model)
+        bad = None
+        if go.startswith("PANIC"):
+            bad = "the compiler panicked"
+        elif go.startswith("ERR_WITH_PROGRAM"):
+            bad = "an error was returned together with a program"
+        elif m:
+            notable = m.get("arch") not in PG.TABLE_ARCHES and m.get("arch") != "X32"
+            if (m.get("defect") or notable) and go.startswith("OK"):
+                bad = "a policy with the defect '%s' was accepted" % (m.get("defect") or "architecture without syscall table")
+            elif not m.get("defect") and not notable and not go.startswith("OK"):
+                bad = "a policy free of the listed defects was rejected: " + go[:80]
+            elif notable and not m.get("defect") and "unsupported_arch" not in go and "problems" not in go:
+                pass
+        if bad:
+            nbad += 1
+            if rep < 3:
+                rep += 1
+                p = ctx.violation("counterexample", dict(case=c["line"].split(" | ")[0], go_result=summarize_go(go), what=bad, description=m), True)
+                rewrite_with_replay_cmd(ctx, p)
+        # correspondence on the projected observable: accepted / error class
+        if mclass != gclass and not (mclass == "OK" and gclass == "OK"):
+            if (mclass.startswith("OK")) != (gclass.startswith("OK")) or mclass != gclass:
+                ndiff += 1
+                if rep < 3 and not bad:
+                    rep += 1
+                    found = mclass == "OK" and not go.startswith("OK")
+                    p = ctx.violation("counterexample" if found else "correspondence",
+                                      dict(case=c["line"].split(" | ")[0], stream="accept / error class (C07)", model_result=mclass[:200], go_result=gclass[:200],
+                                           what="the implementation refuses an input the proved model accepts" if found else "model and implementation classify this policy differently", description=m), found)
+                    rewrite_with_replay_cmd(ctx, p)
+                    if found:
+                        nbad += 1
+    policy_coverage(ctx, res, "valid policies of every kind and the same policies with ONE defect injected at a random position (unnamed default action, no groups, unknown name in either list - empty, wrong case, trailing blank, NUL, invalid UTF-8 -, duplicate name, conditional+unconditional, argument index 6/7/100/2^31/2^32-1, operation outside the eight constants incl. '' and wrong case, empty condition list), plus policies for architectures without tables; compared with the extracted model on accepted / error class / panic; judged directly against the property text (defect => error without program, no defect => accepted, never a panic); non-trivial = distinct policies carrying a defect that were judged",
+                    lambda cid, c: bool((meta.get(cid) or {}).get("defect")))
+    ctx.coverage["input_distribution"]["outcome_by_defect"] = classes
+    ctx.coverage["correspondence_differences"] = ndiff
+    ctx.coverage["counterexamples"] = nbad
+    finish_with_proof_status(ctx, nbad, "C07 theorems")
+
+
+C07_THEOREMS = ["C07_defects_are_these", "C07_reject_iff", "C07_error_class", "C07_accepts", "C07_generated_code_assembles",
+                "C07_no_rule_dropped", "C07_unsupported_arch", "C07_records_with_tables", "C07_nonvacuous"]
+
+CHECKS.update({"C02": check_C02, "C03": check_C03, "C04": check_C04, "C05": check_C05, "C07": check_C07})
